@@ -468,7 +468,7 @@ class Gen:
                 files[a] += tail_a + "\n\nclass Shared:\n    label = \"widget\"\n\n    def describe(self) -> object:\n        return self.colour\n"
                 files[b] += tail_b + "\n\nfrom %s import Shared\n\n\ndef read_shared(w: Shared) -> object:\n    return [w.colour, w.label]\n" % a[:-3]
         enable = sorted({c for a in self.meta["atoms"] if a in ATOMS for c in ATOMS[a].get("enable", [])} | set(self.meta.pop("module_enable", set())))
-        if "unused_ignore" in enable and "module:class_attr_never_set" in self.meta["atoms"] and not with_known:
+        if "unused_ignore" in enable and ("module:class_attr_never_set" in self.meta["atoms"] or "cross_file_class_attribute_read" in self.meta["features"]) and not with_known:
             # recorded defect C16-K6 (late attribute-checker diagnostics vs unused_ignore): keep the
             # combination to the trees that are allowed to hit known defects
             enable = [c for c in enable if c != "unused_ignore"]
